@@ -232,8 +232,81 @@ func extractC16Dep(c *ctxT) {
 			types = append(types, fmt.Sprintf("  { name := %s, embeds := %s }", leanStr(mod+"/"+tn), leanStrList(es)))
 		}
 	}
+	// ---- wiring: the expression app/keepers/keepers.go passes as the `authority` parameter of every dependency keeper
+	// constructor (the parameter is found by NAME in the constructor's declaration in the module cache)
+	var wiring [][3]string
+	if kf, ok := c.pkg("app/keepers")["keepers.go"]; ok {
+		imps := imports(kf)
+		ast.Inspect(kf, func(n ast.Node) bool {
+			call, ok := n.(*ast.CallExpr)
+			if !ok {
+				return true
+			}
+			se, ok := call.Fun.(*ast.SelectorExpr)
+			if !ok || !strings.HasPrefix(se.Sel.Name, "New") {
+				return true
+			}
+			alias, ok := se.X.(*ast.Ident)
+			if !ok {
+				return true
+			}
+			ip := imps[alias.Name]
+			if !keeperPkgs[ip] {
+				return true
+			}
+			mod, dir := gm.moduleOf(c.repo, ip)
+			if mod == "" {
+				return true
+			}
+			rel := strings.TrimPrefix(strings.TrimPrefix(ip, mod), "/")
+			if !hasGoFiles(filepath.Join(dir, rel)) {
+				return true
+			}
+			c2 := &ctxT{repo: dir, out: c.out, fset: c.fset, facts: map[string]any{}, pkgs: map[string]map[string]*ast.File{}}
+			for _, f := range c2.pkg(rel) {
+				for _, d := range f.Decls {
+					fd, ok := d.(*ast.FuncDecl)
+					if !ok || fd.Recv != nil || fd.Name.Name != se.Sel.Name || fd.Type.Params == nil {
+						continue
+					}
+					idx, i := -1, 0
+					for _, prm := range fd.Type.Params.List {
+						for j, nm := range prm.Names {
+							if nm.Name == "authority" {
+								idx = i + j
+							}
+						}
+						if len(prm.Names) == 0 {
+							i++
+						} else {
+							i += len(prm.Names)
+						}
+					}
+					if idx >= 0 && idx < len(call.Args) {
+						wiring = append(wiring, [3]string{ip, alias.Name + "." + se.Sel.Name, oneLine(c.src(call.Args[idx]), 120)})
+					}
+				}
+			}
+			return true
+		})
+	}
+	pkgSet := map[string]bool{}
+	for _, im := range impls {
+		pkgSet[im.recv[:strings.LastIndex(im.recv, ".")]] = true
+	}
+
 	var sb strings.Builder
 	sb.WriteString("import FxVerif.Model.C16Syntax\nnamespace FxVerif.Gen.C16Dep\nopen FxVerif.Model.C16\n\n")
+	sb.WriteString("/-- (dependency keeper package, constructor called in app/keepers/keepers.go, expression passed as its `authority` parameter) -/\ndef wiring : List (String × String × String) := [\n")
+	for i, w := range wiring {
+		sep := ","
+		if i == len(wiring)-1 {
+			sep = ""
+		}
+		fmt.Fprintf(&sb, "  (%s, %s, %s)%s\n", leanStr(w[0]), leanStr(w[1]), leanStr(w[2]), sep)
+	}
+	sb.WriteString("]\n\n/-- the packages of the handlers below -/\ndef handlerPkgs : List String := " + leanStrList(sortedKeys(pkgSet)) + "\n\n")
+	c.facts["C16.depWiring"] = wiring
 	sb.WriteString("/-- helpers of the dependency keepers that their authority checks call (followed one level) -/\ndef helpers : List Helper := [\n" + strings.Join(helpers, ",\n") + "\n]\n\n")
 	sb.WriteString("/-- every method of a dependency keeper package (Cosmos SDK / IBC / ethermint, at the versions go.mod pins) whose request carries an `Authority` -/\ndef impls : List Impl := [\n")
 	for i, im := range impls {
